@@ -1013,6 +1013,11 @@ func closeDischarge(c *Ctx, f *ssa.Function, call *ssa.Call) (bool, string) {
 							if _, isP := x.X.(*ssa.Parameter); !isP {
 								onlyParam = false
 							}
+						case *ssa.MakeChan:
+							// a channel created by the function that starts this goroutine and captured by it
+							if f.Parent() == nil || x.Parent() != f.Parent() {
+								onlyParam = false
+							}
 						default:
 							onlyParam = false
 						}
